@@ -19,3 +19,9 @@ package swagen30
 //@ ensures gate: implies(result1 == nil, evcount(validatedSpec) == old(evcount(validatedSpec))+1 && evlast(validatedSpec, 0))
 //@ ensures failed: implies(result1 != nil, len(result0) == 0)
 //@ ensures once: evcount(validatedSpec) <= old(evcount(validatedSpec))+1
+
+// Validator-tag conversion: safety (C14). Any Schema object may be changed (the ref may alias a component).
+//@ func BuildSchemaValidation props C14,C11
+//@ requires schema != nil && schema.Value != nil
+//@ modifies any(openapi3.Schema.Format), any(openapi3.Schema.Min), any(openapi3.Schema.Max), any(openapi3.Schema.ExclusiveMin), any(openapi3.Schema.ExclusiveMax), any(openapi3.Schema.MinLength), any(openapi3.Schema.MaxLength), any(openapi3.Schema.Pattern), any(openapi3.Schema.MinItems), any(openapi3.Schema.MaxItems), any(openapi3.Schema.UniqueItems), any(openapi3.Schema.Enum), any(elems(schema.Value.Enum))
+//@ loop 0 invariant schema.Value != nil
